@@ -33,19 +33,19 @@ Definition H (f : filt) (zi : C) : C := Cdiv (ceval (fnum f) zi) (ceval (fden f)
 Definition cis (w : R) : C := (cos w, sin w).
 Definition freq_response (f : filt) (w : R) : C := H f (cis (- w)).
 
-(* real and imaginary part of  p (c - j s)  by the same Horner scheme, and
+(* real and imaginary part of  p (e^{-jw}) = sum_k a_k e^{-jkw},  and
    abs(freq_response) as the library computes it: |num| / |den| *)
-Fixpoint ev_re (p : list R) (c s : R) : R :=
+Fixpoint ev_re_from (k : nat) (p : list R) (w : R) : R :=
   match p with
   | [] => 0
-  | a :: r => a + (c * ev_re r c s + s * ev_im r c s)
-  end
-with ev_im (p : list R) (c s : R) : R :=
-  match p with
-  | [] => 0
-  | a :: r => c * ev_im r c s - s * ev_re r c s
+  | a :: r => a * cos (INR k * w) + ev_re_from (S k) r w
   end.
-Definition nrm2 (p : list R) (w : R) : R := (ev_re p (cos w) (sin w)) ^ 2 + (ev_im p (cos w) (sin w)) ^ 2.
+Fixpoint ev_im_from (k : nat) (p : list R) (w : R) : R :=
+  match p with
+  | [] => 0
+  | a :: r => - (a * sin (INR k * w)) + ev_im_from (S k) r w
+  end.
+Definition nrm2 (p : list R) (w : R) : R := (ev_re_from 0 p w) ^ 2 + (ev_im_from 0 p w) ^ 2.
 Definition mag2 (f : filt) (w : R) : R := nrm2 (fnum f) w / nrm2 (fden f) w.
 Definition gain_at (f : filt) (w : R) : R := sqrt (nrm2 (fnum f) w) / sqrt (nrm2 (fden f) w).
 
@@ -223,6 +223,12 @@ Definition erb_constant_x (n : nat) : R :=
 Definition erb_constant_y (n : nat) : R := 2 * sqrt (exp (ln 2 * (1 / INR n)) - 1).
 
 End RealDesigns.
+
+(* Stream-valued design parameters (thub + elementwise arithmetic): the coefficients are
+   streams whose n-th values are computed from the n-th parameter values by the same
+   expressions, i.e. the n-th filter is the constant design at the n-th parameter. *)
+Definition stream_design {P : Type} (design : P -> filt) (params : list P) : list filt :=
+  map design params.
 
 (* --------------------------------------------------------------------- comb *)
 (* Exact coefficients: comb.fb  1 / (1 - alpha * z ** -delay),  comb.ff  1 + alpha * z ** -delay *)
